@@ -210,6 +210,23 @@ func RunCheck(opt *Options) (*CheckReport, error) {
 					tagged = true
 				}
 			}
+			// ... or through a tagged loop/closure invariant, closure clause or assertion
+			for _, specs := range []map[int]*LoopSpec{fc.Loops, fc.Closures} {
+				for _, ls := range specs {
+					for _, cls := range [][]*Clause{ls.Invariants, ls.Ensures} {
+						for _, c := range cls {
+							if hasProp(c.Props, opt.Property) {
+								tagged = true
+							}
+						}
+					}
+				}
+			}
+			for _, a := range fc.Asserts {
+				if a.Clause != nil && !a.Assume && hasProp(a.Clause.Props, opt.Property) {
+					tagged = true
+				}
+			}
 			if fc.Trusted || !tagged {
 				continue
 			}
